@@ -53,20 +53,29 @@ def eq_arg(sp, x, num, den, factor=10.0):
 
 
 # ----------------------------------------------------------------------------- si_sdr
-def sisdr_instance(lead, T, variant):
+def sisdr_instance(lead, T, variant, lead_e=None):
+    """lead_e: leading shape of the estimate when it differs from the reference's (broadcast against each other)"""
     from pb_bss.evaluation.module_si_sdr import si_sdr
-    lead = tuple(lead)
+    lead_s = tuple(lead)
+    lead_e = lead_s if lead_e is None else tuple(lead_e)
+    lead = tuple(np.broadcast_shapes(lead_s, lead_e))
+
+    def bi(li, shp):
+        # index into an operand of leading shape shp for the broadcast index li
+        off = len(li) - len(shp)
+        return tuple(0 if n == 1 else li[off + a] for a, n in enumerate(shp))
 
     def make(B):
         sp = B.sp
-        s = B.real('s', lead + (T,))
-        e = B.real('e', lead + (T,))
+        s = B.real('s', lead_s + (T,))
+        e = B.real('e', lead_e + (T,))
         inp = {'s': s, 'e': e}
         sc, ec = cells(s), cells(e)
         for li in np.ndindex(*lead):
-            ss = sp.sum(sc[li + (t,)] * sc[li + (t,)] for t in range(T))
-            ee = sp.sum(ec[li + (t,)] * ec[li + (t,)] for t in range(T))
-            se = sp.sum(sc[li + (t,)] * ec[li + (t,)] for t in range(T))
+            ls_, le_ = bi(li, lead_s), bi(li, lead_e)
+            ss = sp.sum(sc[ls_ + (t,)] * sc[ls_ + (t,)] for t in range(T))
+            ee = sp.sum(ec[le_ + (t,)] * ec[le_ + (t,)] for t in range(T))
+            se = sp.sum(sc[ls_ + (t,)] * ec[le_ + (t,)] for t in range(T))
             B.require('reference-nonzero', sp.gt(ss, 0.0))
             B.require('estimate-not-orthogonal', sp.ne(se, 0.0))
             B.require('estimate-not-collinear', sp.gt(ss * ee - se * se, 0.0))
@@ -90,11 +99,12 @@ def sisdr_instance(lead, T, variant):
             return
         sc, ec, g = cells(inp['s']), cells(inp['e']), cells(r)
         for li in np.ndindex(*lead):
-            ss = sp.sum(sc[li + (t,)] * sc[li + (t,)] for t in range(T))
-            se = sp.sum(sc[li + (t,)] * ec[li + (t,)] for t in range(T))
+            ls_, le_ = bi(li, lead_s), bi(li, lead_e)
+            ss = sp.sum(sc[ls_ + (t,)] * sc[ls_ + (t,)] for t in range(T))
+            se = sp.sum(sc[ls_ + (t,)] * ec[le_ + (t,)] for t in range(T))
             alpha = se / ss
-            tgt = sp.sum((alpha * sc[li + (t,)]) * (alpha * sc[li + (t,)]) for t in range(T))
-            res = sp.sum((ec[li + (t,)] - alpha * sc[li + (t,)]) * (ec[li + (t,)] - alpha * sc[li + (t,)]) for t in range(T))
+            tgt = sp.sum((alpha * sc[ls_ + (t,)]) * (alpha * sc[ls_ + (t,)]) for t in range(T))
+            res = sp.sum((ec[le_ + (t,)] - alpha * sc[ls_ + (t,)]) * (ec[le_ + (t,)] - alpha * sc[ls_ + (t,)]) for t in range(T))
             if variant == 'value':
                 yield 'value[%s]' % (li,), eq_arg(sp, g[li], tgt, res)
             else:
@@ -102,7 +112,7 @@ def sisdr_instance(lead, T, variant):
                 a1, a2 = unlog10(sp, g[li]), unlog10(sp, g2[li])
                 yield '%s-invariant[%s]' % (variant, li), (sp.FALSE if a1 is None or a2 is None else sp.eq(a1, a2))
 
-    return Instance('C19', F_SISDR, 'lead%s-T%d-%s' % ('x'.join(map(str, lead)) or '0', T, variant), make, call, ensures,
+    return Instance('C19', F_SISDR, 'lead%s%s-T%d-%s' % ('x'.join(map(str, lead_s)) or '0', '' if lead_e == lead_s else '-vs-' + 'x'.join(map(str, lead_e)), T, variant), make, call, ensures,
                     timeout=30.0, scales=SCALES)
 
 
@@ -138,7 +148,7 @@ def insxr_instance(K, D, T, average_channels, variant='value', return_dict=False
             return sx.input_sxr(inp['im'], inp['no'], return_dict=return_dict, **kw)
         if variant == 'average':
             return (sx.input_sxr(inp['im'], inp['no'], **kw),
-                    sx.input_sxr(inp['im'], inp['no'], average_sources=True, average_channels=average_channels))
+                    sx.input_sxr(inp['im'], inp['no'], average_sources=True, average_channels=average_channels, return_dict=return_dict))
         if variant == 'scale-all':
             return (sx.input_sxr(inp['im'], inp['no'], **kw),
                     sx.input_sxr(inp['im'] * inp['c'], inp['no'] * inp['c'], **kw))
@@ -189,7 +199,15 @@ def insxr_instance(K, D, T, average_channels, variant='value', return_dict=False
                 yield 'sdr<=snr(dB)[%s]' % (i,), sp.le(sdr[i], snr[i])
             return
         o1, o2 = out
-        a1, a2 = [cells(x) for x in get3(o1)], [cells(x) for x in get3(o2)]
+        if variant == 'average' and return_dict:
+            prefix = '' if return_dict is True else return_dict
+            okd = isinstance(o2, dict) and set(o2) == {prefix + 'sdr', prefix + 'sir', prefix + 'snr'}
+            yield 'averaged-result-is-dict-with-keys', sp._f(okd)
+            if not okd:
+                return
+            a1, a2 = [cells(x) for x in get3(o1)], [cells(x) for x in get3(o2, prefix)]
+        else:
+            a1, a2 = [cells(x) for x in get3(o1)], [cells(x) for x in get3(o2)]
         names = ('sdr', 'sir', 'snr')
         if variant == 'average':
             for q in range(3):
@@ -249,7 +267,7 @@ def outsxr_instance(Ks, Kt, T, variant='value', return_dict=False, perm=None):
             return sx.output_sxr(inp['ic'], inp['nc'], average_sources=False, return_dict=return_dict)
         if variant == 'average':
             return (sx.output_sxr(inp['ic'], inp['nc'], average_sources=False),
-                    sx.output_sxr(inp['ic'], inp['nc'], average_sources=True))
+                    sx.output_sxr(inp['ic'], inp['nc'], average_sources=True, return_dict=return_dict))
         if variant == 'reorder':
             p = list(perm)
             return (sx.output_sxr(inp['ic'], inp['nc'], average_sources=False),
@@ -305,7 +323,15 @@ def outsxr_instance(Ks, Kt, T, variant='value', return_dict=False, perm=None):
                 yield 'sdr<=snr(dB)[%d]' % k, sp.le(sdr[(k,)], snr[(k,)])
             return
         o1, o2 = out
-        a1, a2 = [cells(x) for x in get3(o1)], [cells(x) for x in get3(o2)]
+        if variant == 'average' and return_dict:
+            prefix = '' if return_dict is True else return_dict
+            okd = isinstance(o2, dict) and set(o2) == {prefix + 'sdr', prefix + 'sir', prefix + 'snr'}
+            yield 'averaged-result-is-dict-with-keys', sp._f(okd)
+            if not okd:
+                return
+            a1, a2 = [cells(x) for x in get3(o1)], [cells(x) for x in get3(o2, prefix)]
+        else:
+            a1, a2 = [cells(x) for x in get3(o1)], [cells(x) for x in get3(o2)]
         names = ('sdr', 'sir', 'snr')
         if variant == 'average':
             for q in range(3):
@@ -395,6 +421,9 @@ def instances(tier):
     out = []
     for lead, T in [((), 2), ((), 3), ((2,), 2)] + ([((), 4), ((2,), 3)] if th else []):
         out.append(sisdr_instance(lead, T, 'value'))
+    out.append(sisdr_instance((2, 1), 2, 'value'))                       # singleton inner leading axis
+    out.append(sisdr_instance((2, 1), 2, 'value', lead_e=(1, 2)))        # reference [K,1,T] against estimate [1,C,T]
+    out.append(sisdr_instance((), 2, 'value', lead_e=(2,)))
     out.append(sisdr_instance((), 3, 'scale-est'))
     out.append(sisdr_instance((), 3, 'scale-ref'))
     out.append(sisdr_instance((2,), 2, 'scale-est'))
@@ -403,6 +432,8 @@ def instances(tier):
             out.append(insxr_instance(K, D, T, ac, 'value'))
     out.append(insxr_instance(2, 2, 2, True, 'average'))
     out.append(insxr_instance(2, 2, 2, False, 'average'))
+    out.append(insxr_instance(2, 2, 2, True, 'average', return_dict='in_'))
+    out.append(insxr_instance(2, 1, 2, False, 'average', return_dict=True))
     out.append(insxr_instance(2, 1, 2, True, 'scale-all'))
     out.append(insxr_instance(2, 2, 2, False, 'scale-all'))
     out.append(insxr_instance(2, 1, 2, True, 'scale-images'))
@@ -412,6 +443,8 @@ def instances(tier):
     for Ks, Kt in [(1, 1), (1, 2), (2, 2), (2, 3)] + ([(1, 3), (3, 3)] if th else []):
         out.append(outsxr_instance(Ks, Kt, 2, 'value'))
     out.append(outsxr_instance(2, 2, 2, 'average'))
+    out.append(outsxr_instance(2, 2, 2, 'average', return_dict='out_'))
+    out.append(outsxr_instance(2, 2, 2, 'average', return_dict=True))
     out.append(outsxr_instance(2, 2, 2, 'value', return_dict=True))
     out.append(outsxr_instance(2, 2, 2, 'value', return_dict='output_'))
     out.append(outsxr_instance(2, 2, 2, 'reorder', perm=(1, 0)))
